@@ -228,6 +228,10 @@ def atoms_model(ctx):
     m2 = _atoms_model(ctx, atoms, prop_name=['pos', 'charge'])
     u2 = {pm['name']: pm['data'].get('unit') for pm in m2['atoms'].aslist('property')}
     ctx.ob('ATOMS-MODEL', loc, 'with no unit given positions are stored in angstrom and other properties without unit', u2 == {'pos': 'angstrom', 'charge': None}, str(u2), node=fn, key='default units')
+    # the same default through a caller's dictionary: 'pos': None is documented to mean angstrom (a pos entry without unit would be read back in whatever the reader's working units are)
+    m3 = _atoms_model(ctx, atoms, prop_unit={'pos': None, 'charge': None})
+    u3 = {pm['name']: pm['data'].get('unit') for pm in m3['atoms'].aslist('property')}
+    ctx.ob('ATOMS-MODEL', loc, "prop_unit={'pos': None, ...} given as a dictionary: positions are stored in angstrom all the same", u3 == {'pos': 'angstrom', 'charge': None}, str(u3), node=fn, key='default units dict')
     # read back: the model branch of the constructor
     env = _read_block(ctx, AT, 'Atoms.__init__', {'model': m, 'natoms': None, 'atype': None, 'pos': None, 'prop': None, 'kwargs': {}, 'self': None}, {})
     rp = env.get('prop')
